@@ -1049,13 +1049,19 @@ func init() {
 		c.Cov.Bound["A"] = fmt.Sprintf("N<=%d T<=%d P<=%d, %d verifiers", cfgA.Nin, cfgA.T, cfgA.P, len(sound))
 		enumTriples(c, cfgA, props)
 		main := pickVers("Verify", "Pollard.Verify", "MapPollard(full,TR=0).Verify", "MapPollard(partial:all,TR=3).Verify(remember=true)", "MapPollard(partial:none,TR=63).VerifyPartialProof(remember=false)")
-		cfgB := tripleCfg{Nmin: 4, Nin: pick(c, 4, 5), T: pick(c, 1, 2), P: pick(c, 3, 3), Vers: main}
+		cfgB := tripleCfg{Nmin: 4, Nin: pick(c, 4, 5), T: 1, P: 3, Vers: main}
 		c.Cov.Bound["B"] = fmt.Sprintf("N in %d..%d T<=%d P<=%d, %d verifiers", cfgB.Nmin, cfgB.Nin, cfgB.T, cfgB.P, len(main))
 		enumTriples(c, cfgB, props)
+		cfgB2 := tripleCfg{Nmin: 4, Nin: 4, T: 2, P: 2, Vers: main}
+		c.Cov.Bound["B2"] = fmt.Sprintf("N=4 T<=2 P<=%d, %d verifiers", cfgB2.P, len(main))
+		enumTriples(c, cfgB2, props)
 		if c.Thorough() {
 			cfgC := tripleCfg{Nmin: 0, Nin: 3, T: 3, P: 2, Vers: main[:2]}
 			c.Cov.Bound["C"] = "N<=3 T<=3 P<=2, Verify and Pollard.Verify"
 			enumTriples(c, cfgC, props)
+			cfgD := tripleCfg{Nmin: 4, Nin: 4, T: 2, P: 3, Vers: main[:3]}
+			c.Cov.Bound["D"] = "N=4 T<=2 P<=3, Verify, Pollard.Verify, MapPollard(full)"
+			enumTriples(c, cfgD, props)
 		}
 		Ne, K := pick(c, 6, 8), pick(c, 3, 3)
 		c.Cov.Bound["edits"] = fmt.Sprintf("single edits of honest proofs of <=%d leaves, N in 4..%d, all verifiers", K, Ne)
@@ -1074,9 +1080,14 @@ func init() {
 		c.Cov.Bound["A"] = fmt.Sprintf("N<=%d T<=%d P<=%d with length mismatches, %d entry points", cfgA.Nin, cfgA.T, cfgA.P, len(vers))
 		enumTriples(c, cfgA, props)
 		main := pickVers("Verify", "Pollard.Verify", "Stump.Update+0", "Stump.Update+2", "MapPollard(full,TR=0).Verify", "MapPollard(partial:all,TR=3).Verify(remember=true)", "MapPollard(partial:none,TR=63).VerifyPartialProof(remember=false)")
-		cfgB := tripleCfg{Nmin: 4, Nin: pick(c, 4, 5), T: pick(c, 1, 2), P: 3, Vers: main, Mismatch: true}
+		cfgB := tripleCfg{Nmin: 4, Nin: pick(c, 4, 5), T: 1, P: 3, Vers: main, Mismatch: true}
 		c.Cov.Bound["B"] = fmt.Sprintf("N in %d..%d T<=%d P<=%d, %d entry points", cfgB.Nmin, cfgB.Nin, cfgB.T, cfgB.P, len(main))
 		enumTriples(c, cfgB, props)
+		if c.Thorough() {
+			cfgB2 := tripleCfg{Nmin: 4, Nin: 4, T: 2, P: 2, Vers: main, Mismatch: true}
+			c.Cov.Bound["B2"] = fmt.Sprintf("N=4 T<=2 P<=2, %d entry points", len(main))
+			enumTriples(c, cfgB2, props)
+		}
 		c.Cov.Bound["synthetic"] = fmt.Sprintf("T<=2, P<=%d for one target, P<=1 for two", pick(c, 2, 3))
 		enumSynth(c, 2, pick(c, 2, 3))
 		Ne := pick(c, 6, 8)
